@@ -337,6 +337,9 @@ def sym_indexer(vc):
                                 if it.branch(isnull):
                                     check(it, 'null-value-leaves-the-state-unchanged' + tag, got_state is curr or
                                           (got_state is None and curr is None))
+                                    # ... and the entry still HAS the field (a null placeholder): the key of an all-null group is in the
+                                    # index, its target rows are matched and get a null aggregate -- they are not "unmatched"
+                                    check(it, 'all-null-group-keeps-a-null-placeholder-for-the-field' + tag, 'x' in cur2.d)
                                 else:
                                     want = run_spec(it, sp.attrs['fold_step'], [agg, curr, v]).value
                                     check(it, 'non-null-value-folded-into-the-state' + tag, _b(same_state(it, got_state, want)))
